@@ -53,7 +53,8 @@ ASSUMPTIONS = [
     "witness is a sound counter-example, absence beyond the bound is not judged",
     "the defect model `b4_run(..., defect=True)` re-implements rv_ltl 0.1.0a1's four-valued monitor "
     "including its Until index range; it is used only to *attribute* a disagreement, never to "
-    "excuse one that it does not predict exactly",
+    "excuse one that it does not predict exactly; with the index range corrected the model still "
+    "returns FALSE at the first currently-truthy position of an `until` (second rv_ltl deviation)",
 ]
 
 ATOMS = ("a", "b", "c")
@@ -118,6 +119,16 @@ def until_under_temporal(f, under=False):
         return True
     u = under or k in TEMPORAL
     return any(until_under_temporal(x, u) for x in f[1:])
+
+
+def has_until(f):
+    return any(kind(g) == "until" for g in subformulas(f))
+
+
+def until_with_temporal_rhs(f):
+    """An `until` whose right operand contains a temporal operator (its value at an earlier
+    position can still change from presumably-false to true)."""
+    return any(kind(g) == "until" and has_temporal(g[2]) for g in subformulas(f))
 
 
 def temporal_nesting(f):
@@ -492,13 +503,19 @@ def selfcheck():
             for _ in range(6):
                 tr = [rng.randrange(4) for _ in range(n)]
                 a, b = holds(f, tr), sat(f, tr)
-                c = b4_run(f, tr, False)[0]
+                # (rv_ltl's Until can say FALSE too early even with the right index range:
+                # the model is only required to agree on formulas without `until`)
+                c = a if has_until(f) else b4_run(f, tr, False)[0]
                 if not (a == b == c):
                     raise core.HarnessError(f"evaluators disagree on {f} {tr}: {a} {b} {c}")
     if b4_run(["next", ["until", ["a"], ["b"]]], [0, 1, 2, 0], True) != (False, 3):
         raise core.HarnessError("defect model does not reproduce the hand-computed rv_ltl case")
     if b4_run(["next", ["until", ["a"], ["b"]]], [0, 1, 2, 0], False) != (True, None):
         raise core.HarnessError("defect-free model wrong on the hand-computed case")
+    prem = ["until", ["a"], ["or", ["a"], ["eventually", ["b"]]]]
+    if b4_run(prem, [0, 1, 2], True) != (False, 1) or b4_run(prem, [0, 1, 2], False) != (False, 1) \
+            or not sat(prem, [0, 1, 2]):
+        raise core.HarnessError("model does not reproduce the hand-computed premature FALSE")
     for f, text in _PRINT_HAND:
         if p_min(f) != text:
             raise core.HarnessError(f"printer self-check: {f} -> {p_min(f)!r}, expected {text!r}")
@@ -798,8 +815,9 @@ def judge(case, collect=None):
     crashes = ignored = 0
     for tr in traces:
         n = len(tr)
-        if end == "maxsteps" and k + n - 1 < 1:
-            continue  # maxSteps=0 means "no limit": a one-step run cannot be ended this way
+        # maxSteps=0 means "no limit": a run of one step in all cannot be ended by maxSteps and
+        # is ended by the table-driven `terminate when` / end of the compose block instead
+        tr_end = "stop" if (end == "maxsteps" and k + n - 1 < 1) else end
         truth = sat(f, tr)
         if temporal and not nontrivial:
             t1 = [tr[0] ^ full] + list(tr[1:])
@@ -812,7 +830,7 @@ def judge(case, collect=None):
             continue
         if scene is None:
             continue
-        table, max_steps, e = build_table(tr, k, end, natoms)
+        table, max_steps, e = build_table(tr, k, tr_end, natoms)
         try:
             r = ts.run(scene, table, max_steps)
         except ts.TableError as ex:
@@ -871,7 +889,7 @@ def judge(case, collect=None):
             flags.add("early-rejection")
         if not problems:
             continue
-        detail = dict(oracle=truth, accepted=accepted, rejected_at_position=rej, k=k, end=end,
+        detail = dict(oracle=truth, accepted=accepted, rejected_at_position=rej, k=k, end=tr_end,
                       problems=problems)
         # attribution through defect models: only an exact prediction attributes
         if place.startswith("dyn") and temporal and accepted and not cells:
@@ -880,9 +898,16 @@ def judge(case, collect=None):
             if ignored >= 3:
                 flags.add("stopped-after-3-ignored")
                 break  # the requirement is not monitored at all: the other traces say the same
-        elif until_under_temporal(f) and b4_run(f, tr, True) == (accepted, rej) \
-                and b4_run(f, tr, False)[0] == truth:
-            fail("until-under-temporal|as-rvltl-until-index-range", tr=tr, **detail)
+        elif has_until(f) and b4_run(f, tr, True) == (accepted, rej):
+            # the full model of rv_ltl predicts this run exactly; which of its two deviations?
+            if b4_run(f, tr, False) == (accepted, rej) and until_with_temporal_rhs(f):
+                # the index range plays no role: Until decided on the first *currently* truthy
+                # position although an earlier one was only presumably false
+                fail("until-with-temporal-rhs|as-rvltl-first-truthy-position", tr=tr, **detail)
+            elif until_under_temporal(f):
+                fail("until-under-temporal|as-rvltl-until-index-range", tr=tr, **detail)
+            else:
+                fail(f"{cell}|{problems[0]}", tr=tr, **detail)
         else:
             fail(f"{cell}|{problems[0]}", tr=tr, **detail)
     out.cls(*sorted(flags))
@@ -908,16 +933,14 @@ def build_cases(tier, seed):
     cases = []
     # A. top level, minimal parentheses: every formula x every trace
     for f in fs:
-        cases.append({"f": f, "variant": "min", "place": "top", "k": 0, "end": "stop",
-                      "natoms": 2, "lens": [1]})
         cases.append({"f": f, "variant": "min", "place": "top", "k": 0,
                       "end": rng.choice(["maxsteps", "maxsteps", "stop"]), "natoms": 2,
-                      "lens": lens[1:], "ego": rng.random() < 0.1})
+                      "lens": lens, "ego": rng.random() < 0.1})
     # B. the other parenthesisations: every formula parsed and compared as a tree, traces sampled
     for f in fs:
         for variant in ("full", "red"):
             if quick:
-                trs = [[rng.randrange(4) for _ in range(rng.randint(1, 4))] for _ in range(20)]
+                trs = [[rng.randrange(4) for _ in range(rng.randint(1, 4))] for _ in range(8)]
                 cases.append({"f": f, "variant": variant, "place": "top", "k": 0, "end": "stop",
                               "natoms": 2, "traces": trs})
             else:
@@ -925,13 +948,22 @@ def build_cases(tier, seed):
                               "natoms": 2, "lens": [1, 2, 3]})
     # C. the other placements
     for place in ("setup", "dyn-sub", "dyn-top"):
-        sub = rng.sample(fs, len(fs) // 4) if quick else fs
+        sub = rng.sample(fs, len(fs) // 6) if quick else fs
         for f in sub:
             k = rng.choice([0, 1, 1, 2])
             cases.append({"f": f, "variant": rng.choice(["min", "min", "full", "red"]),
                           "place": place, "k": k, "end": rng.choice(END_MODES[place]),
                           "natoms": 2, "lens": [1, 2, 3] if quick else [1, 2, 3, 4],
                           "ego": rng.random() < 0.5})
+    # E. `until` whose right operand is temporal (depth 3): seeded sample, short traces
+    f1 = formulas_upto(1)
+    rhs = [g for g in fs if has_temporal(g)]
+    for _ in range(400 if quick else 6000):
+        f = ["until", rng.choice(f1), rng.choice(rhs)]
+        place = rng.choice(["top", "top", "top", "setup"])
+        cases.append({"f": f, "variant": "min", "place": place, "k": 0 if place == "top" else 1,
+                      "end": "stop", "natoms": 2, "lens": [1, 2, 3] if quick else [1, 2, 3, 4],
+                      "ego": False})
     # D. deeper formulas, three atoms, longer traces (seeded sample)
     nd = 600 if quick else 12000
     seen = set()
